@@ -23,7 +23,7 @@ TNext ==
         /\ Guard(e.ret[1] = "ok" /\ e.ret[2] = 1)          \* forwarded exactly once
         /\ UNCHANGED <<js, mode, live, acc>>
      ELSE
-        /\ acc' = acc \o AcceptedBytes(e.buf, e.inner, 1)
+        /\ acc' = acc \o (IF InnerGeomOk(e.inner, Len(e.buf)) THEN AcceptedBytes(e.buf, e.inner, 1) ELSE <<>>)
         /\ mode' = mode
         /\ IF live # "live" THEN
               /\ Guard(IF e.ret[1] = "ok" THEN e.ret[2] <= Len(e.buf) ELSE TRUE)
